@@ -54,3 +54,30 @@ Proof. vm_compute. reflexivity. Qed.
 Example tdea_B1_dec : tdea_dec (hex "0123456789abcdef") (hex "23456789abcdef01") (hex "456789abcdef0123") (hex "a826fd8ce53b855f")
   = hex "5468652071756663".
 Proof. vm_compute. reflexivity. Qed.
+
+(* all of the above as one proposition (an obligation of Properties_C12.v) *)
+Definition des_vectors_hold : Prop :=
+  (des_enc (hex "133457799bbcdff1") (hex "0123456789abcdef") = hex "85e813540f0ab405") /\
+  (des_dec (hex "133457799bbcdff1") (hex "85e813540f0ab405") = hex "0123456789abcdef") /\
+  (des_enc (hex "0123456789abcdef") (hex "4e6f772069732074") = hex "3fa40e8a984d4815") /\
+  (des_enc (hex "0e329232ea6d0d73") (hex "8787878787878787") = hex "0000000000000000") /\
+  (des_enc (hex "0101010101010101") (hex "8000000000000000") = hex "95f8a5e5dd31d900") /\
+  (des_enc (hex "0101010101010101") (hex "4000000000000000") = hex "dd7f121ca5015619") /\
+  (des_enc (hex "0101010101010101") (hex "0000000000000001") = hex "166b40b44aba4bd6") /\
+  (des_enc (hex "8001010101010101") (hex "0000000000000000") = hex "95a8d72813daa94d") /\
+  (des_enc (hex "4001010101010101") (hex "0000000000000000") = hex "0eec1487dd8c26d5") /\
+  (des_enc (hex "1046913489980131") (hex "0000000000000000") = hex "88d55e54f54c97b4") /\
+  (des_enc (hex "7ca110454a1a6e57") (hex "01a1d6d039776742") = hex "690f5b0d9a26939b") /\
+  (des_enc (hex "1c587f1c13924fef") (hex "305532286d6f295a") = hex "63fac0d034d9f793") /\
+  (map (fun b : bool => if b then 1 else 0) (hd [] (des_subkeys (hex "133457799bbcdff1"))) =
+  [0;0;0;1;1;0; 1;1;0;0;0;0; 0;0;1;0;1;1; 1;0;1;1;1;1; 1;1;1;1;1;1; 0;0;0;1;1;1; 0;0;0;0;0;1; 1;1;0;0;1;0]) /\
+  (tdea_enc (hex "0123456789abcdef") (hex "23456789abcdef01") (hex "456789abcdef0123") (hex "5468652071756663")
+  = hex "a826fd8ce53b855f") /\
+  (tdea_enc (hex "0123456789abcdef") (hex "23456789abcdef01") (hex "456789abcdef0123") (hex "6b2062726f776e20")
+  = hex "cce21c8112256fe6") /\
+  (tdea_enc (hex "0123456789abcdef") (hex "23456789abcdef01") (hex "456789abcdef0123") (hex "666f78206a756d70")
+  = hex "68d5c05dd9b6b900") /\
+  (tdea_dec (hex "0123456789abcdef") (hex "23456789abcdef01") (hex "456789abcdef0123") (hex "a826fd8ce53b855f")
+  = hex "5468652071756663").
+Lemma des_vectors_ok : des_vectors_hold.
+Proof. exact (conj des_classic (conj des_classic_dec (conj des_fips81 (conj des_zero_ct (conj des_vp1 (conj des_vp2 (conj des_vp64 (conj des_vk1 (conj des_vk2 (conj des_perm1 (conj des_subst1 (conj des_subst19 (conj des_classic_K1 (conj tdea_B1_1 (conj tdea_B1_2 (conj tdea_B1_3 tdea_B1_dec)))))))))))))))). Qed.
